@@ -139,6 +139,12 @@ def gen_cons_spec(rng):
     for o, opts in zip(origins, optss):
         sel.append({'o': o, 'opts': opts})
     ty = rng.choice(TYPES)
+    # sometimes an independent, unconstrained choice next to the constrained ones (the encoders then have a merged
+    # scenario for the constrained choices followed by a further scenario)
+    if rng.random() < .4:
+        o = new()
+        derives.append([0, o])
+        sel.append({'o': o, 'opts': [new() for _ in range(rng.randint(2, 3))]})
     spec = {'n': n[0], 'derives': derives, 'sel': sel, 'start': [0], 'incompat': [],
             'cons': [{'ty': ty, 'cs': list(range(base, base + nc))}]}
     return spec, placement
